@@ -153,3 +153,12 @@ claim('C16',
       'into solver state. Serial = parallel then follows because pool workers get pickled copies and the serial loop shares one object. Bitwise float identity is NOT decided.',
       'Trusted: root names of the input object (dassh_input/inp/dassh_inp/...), resolver, schema-based container classification.',
       'DESIGN.md 4 C16')
+claim('C06',
+      'clone-ownership set algebra over attribute effects (K6): mutated-attribute sets from the per-object call closure vs attributes re-bound on the copy, with update-before-use dominance checks on the CFG; layering / module-state who-may-write rules',
+      'Structural necessary conditions of C06 (DESIGN 4.6): for each of the six classes cloned with copy.copy, every attribute through which code reachable from the per-assembly entry points '
+      '(sweep, region change, post-clone setup; self-call and property closure over the class hierarchy, plus state-changing methods of field objects) mutates an object is given a fresh object '
+      'on the copy - by clone(), by a method clone() calls on the copy, or by the caller - or the shared object obeys an update-before-use discipline verified by dominance on the CFG; no '
+      'assembly-level module refers to the reactor, the core or the assembly list; no function writes module-level state after import (positive example must fire). Numerical identity with a '
+      'stand-alone run is NOT decided.',
+      'Trusted: receiver table, entry-point list and caller-side rebind sites in dsa/rules/c06.py.',
+      'DESIGN.md 4 C06')
